@@ -551,6 +551,41 @@ void run_concrete(FILE* fp, UnitRec const& u, FN const& fn, const char* tyname, 
   }
 }
 
+// ---------------------------------------------------------------- numeric property exploration
+// Clauses of a property that have no theorem yet are at least *searched*: a generic callable computes, at
+// float and double, a residual that the property says is (numerically) zero; inputs are seeded random numbers
+// which the callable maps into its documented domain (it returns a negative value to skip an input).
+// This is exploration in support of the proof machinery (it finds failing inputs), never a substitute for it.
+struct PropRec {
+  std::string name; int nin; double tol32, tol64;
+  std::function<float(float const*)> f32; std::function<double(double const*)> f64;
+};
+inline std::vector<PropRec>& prop_registry() { static std::vector<PropRec> r; return r; }
+template<class F> void add_prop(std::string const& name, int nin, double tol32, double tol64, F f) {
+  PropRec p; p.name = name; p.nin = nin; p.tol32 = tol32; p.tol64 = tol64;
+  p.f32 = [f](float const* x) { return f(x); }; p.f64 = [f](double const* x) { return f(x); };
+  prop_registry().push_back(std::move(p));
+}
+template<class T, class FN> void run_prop(FILE* fp, PropRec const& p, FN const& fn, const char* ty, double tol, uint64_t seed, int count, long& evals, long& fails) {
+  Rng r(seed ^ std::hash<std::string>()(p.name));
+  std::vector<T> in(p.nin);
+  for (int k = 0; k < count; ++k) {
+    // raw numbers: mostly uniform in [-2,2]; every 4th input vector mirrors its first half into the second
+    // (parallel / antiparallel / repeated arguments), every 7th uses small integers
+    for (int i = 0; i < p.nin; ++i) in[i] = (k % 7 == 6) ? (T)((int)(r.next() % 7) - 3) : (T)(r.unit() * 4.0 - 2.0);
+    if (k % 4 == 3 && p.nin >= 2) { int h = p.nin / 2; T sc = (k % 8 == 3) ? (T)-1 : ((k % 16 == 7) ? (T)1 : (T)(-(r.unit() * 2.0 + 0.25)));
+      for (int i = 0; i < h; ++i) in[h + i] = sc * in[i]; }
+    T res = fn(in.data());
+    if (res < T(0)) continue;                     // outside the documented domain
+    ++evals;
+    if (!(res <= (T)tol)) {                       // also catches NaN
+      ++fails;
+      if (fails <= 5) { fprintf(fp, "PROPFAIL %s %s residual %g tol %g in", p.name.c_str(), ty, (double)res, tol);
+        for (int i = 0; i < p.nin; ++i) fprintf(fp, " %.17g", (double)in[i]); fprintf(fp, "\n"); }
+    }
+  }
+}
+
 // main of every unit TU:  prog trace | prog run <seed> <count>
 inline int unit_main(int argc, char** argv) {
   if (argc >= 2 && !strcmp(argv[1], "trace")) {
@@ -595,6 +630,15 @@ inline int unit_main(int argc, char** argv) {
       printf("\n"); return 0;
     }
     fprintf(stderr, "eval: no unit %s\n", argv[2]); return 2;
+  }
+  if (argc >= 4 && !strcmp(argv[1], "props")) {
+    uint64_t seed = strtoull(argv[2], 0, 10); int count = atoi(argv[3]); long evals = 0, fails = 0;
+    for (auto const& p : prop_registry()) {
+      run_prop<float>(stdout, p, p.f32, "f32", p.tol32, seed, count, evals, fails);
+      run_prop<double>(stdout, p, p.f64, "f64", p.tol64, seed, count, evals, fails);
+    }
+    printf("PROPS props=%d evaluated=%ld failed=%ld\n", (int)prop_registry().size(), evals, fails);
+    return 0;
   }
   if (argc >= 2 && !strcmp(argv[1], "list")) { for (auto const& u : registry()) printf("%s %d %d\n", u.name.c_str(), u.nin, u.nout); return 0; }
   fprintf(stderr, "usage: %s trace | run <seed> <count> | list\n", argv[0]); return 2;
